@@ -23,7 +23,7 @@ for item, ids in sorted(m.items()):
         own = meta.get('property', '')
         mark = ', '.join((f'**{i}**' if i == own else i) for i in ids) if ids else '— (missed)'
         rows_seed.append(f'| {item} | {meta.get("round", 1)} | {first_line(d + "/notes.md")} | {mark} |')
-    elif re.match(r'^b\d-r\d', item):
+    elif re.match(r'^b\d+-r\d', item):
         rows_ben.append(f'| {item} | {"none" if not ids else "ALARM: " + ", ".join(ids)} |')
     else:
         rows_mut.append(f'| {item} | {", ".join(ids) if ids else "— (missed)"} |')
